@@ -107,6 +107,9 @@ var specLayout = map[string][]specField{
 	"Auth":        {{"ReasonCode", "byte", "reason|props"}, {"#props:Auth", "props", "reason|props"}},
 }
 
+// connect acknowledge flags (§3.2.2.1)
+var specConnAckFlags = map[string]int64{"SessionPresent": 0x01}
+
 // subscription options (§3.8.3.1)
 var specSubOptions = map[string]int64{
 	"OptQoS1": 0x01, "OptQoS2": 0x02, "OptQoS3": 0x03, "OptNL": 0x04, "OptRAP": 0x08, "OptRetain1": 0x10, "OptRetain2": 0x20, "OptRetain3": 0x30,
